@@ -21,6 +21,11 @@ var c02Alphabets = map[string][]string{
 	"bmp2":   {"é", "ß", "ж", "д", "a", " ", "=", "x"},
 	"bmp3":   {"中", "文", "日", "本", "€", "a", " ", "x"},
 	"astral": {"😀", "𝒳", "🚀", "𐍈", "a", " ", "x", "中"},
+	// code points that text-processing code likes to special-case: the replacement character (a
+	// valid 3-byte character that is also what decoders return for broken input), a byte-order
+	// mark, Unicode line/paragraph separators and NEL (not line ends in LSP), NBSP, the last BMP
+	// and the first and last astral code points
+	"special": {"\uFFFD", "\uFEFF", "\u2028", "\u2029", "\u0085", "\u00A0", "\uFFFF", "\U00010000", "\U0010FFFF", "\u007F", "a", " ", "x"},
 }
 
 func randText(r *rand.Rand, classes []string, eols []string, lines int) string {
@@ -79,7 +84,7 @@ func genC02(seed int64, tier string) *Scenario {
 	r := rand.New(rand.NewSource(seed))
 	sc := &Scenario{Prop: "C02", Seed: seed, Knobs: map[string]interface{}{}, Sched: Canonical()}
 	// character classes and line endings of this run (swarm: subsets)
-	classSets := [][]string{{"ascii"}, {"ascii", "bmp2"}, {"ascii", "bmp3"}, {"ascii", "astral"}, {"ascii", "bmp2", "bmp3", "astral"}, {"astral"}}
+	classSets := [][]string{{"ascii"}, {"ascii", "bmp2"}, {"ascii", "bmp3"}, {"ascii", "astral"}, {"ascii", "bmp2", "bmp3", "astral"}, {"astral"}, {"ascii", "special"}, {"special", "astral"}}
 	eolSets := [][]string{{"\n"}, {"\r\n"}, {"\r"}, {"\n", "\r\n"}, {"\n", "\r\n", "\r"}, {"\n", "\r"}}
 	ci, ei := r.Intn(len(classSets)), r.Intn(len(eolSets))
 	if r.Intn(3) == 0 {
